@@ -12,7 +12,28 @@ use ssdeep::Generator;
 
 fn dirty_generator(rng: &mut Rng) -> Generator {
     let mut g = Generator::new();
-    match rng.below(8) {
+    match rng.below(10) {
+        8 => {
+            // deep: a few KiB of real zeros and random data, then dense trigger
+            // words (elimination at several levels, full contexts)
+            g.update(&vec![0u8; 3000]);
+            let t = gen_payload(rng, Class::Random);
+            g.update(&t.bytes);
+            let mut w = gen_payload(rng, Class::Words);
+            w.bytes.truncate(2000);
+            g.update(&w.bytes);
+        }
+        9 => {
+            // a state reached through the hook itself: 96 GiB-ish, then crafted
+            // words at high levels (the states the runs actually use it from)
+            g.verif_feed_zero_bytes((1u64 << 36) + rng.below(1 << 20));
+            let mut t = gen_payload(rng, Class::Tiny);
+            t.bytes.clear();
+            for _ in 0..rng.range(1, 70) {
+                t.push_word(rng.range(20, 30) as usize, rng);
+            }
+            g.update(&t.bytes);
+        }
         0 => {}
         1 => {
             let t = gen_payload(rng, Class::Tiny);
